@@ -20,6 +20,19 @@ type IndexLoop struct {
 	Step     int64
 	Bound ssa.Value // right operand of the `<` test
 	If    *ssa.If   // header test; Succs[0] is the body
+	// Descending: `for i := n - 1; i >= 0; i--`. Step is -1, StartVal the first
+	// index (n - 1), Bound the exclusive upper limit n when the first index has
+	// that form (nil otherwise); the loop ends below index 0.
+	Descending bool
+}
+
+// Full reports whether the loop visits every index of [0, Bound) once:
+// forward from 0 in steps of 1, or backward from Bound-1 down to 0.
+func (il *IndexLoop) Full() bool {
+	if il.Descending {
+		return il.Bound != nil && il.Step == -1
+	}
+	return il.Start == 0 && il.Step == 1
 }
 
 // AsIndexLoop recognises l as an index loop, or returns nil.
@@ -33,10 +46,16 @@ func AsIndexLoop(l *Loop) *IndexLoop {
 		return nil
 	}
 	cmp, ok := iff.Cond.(*ssa.BinOp)
-	if !ok || cmp.Op != token.LSS {
+	if !ok {
 		return nil
 	}
 	if !l.Blocks[h.Succs[0]] || l.Blocks[h.Succs[1]] {
+		return nil
+	}
+	if cmp.Op == token.GEQ || cmp.Op == token.GTR {
+		return asDescendingLoop(l, iff, cmp)
+	}
+	if cmp.Op != token.LSS {
 		return nil
 	}
 	il := &IndexLoop{Loop: l, If: iff, Bound: cmp.Y}
@@ -380,4 +399,35 @@ func Describe(v ssa.Value) string {
 // coming from inside.
 func PhiInitLatch(phi *ssa.Phi, l *Loop) (init, latch ssa.Value, ok bool) {
 	return phiInitValueAndLatch(phi, l)
+}
+
+// asDescendingLoop recognises `for i := n - 1; i >= 0; i--` (also `i > -1`).
+func asDescendingLoop(l *Loop, iff *ssa.If, cmp *ssa.BinOp) *IndexLoop {
+	k, isc := ConstInt(cmp.Y)
+	if !isc || !(cmp.Op == token.GEQ && k == 0 || cmp.Op == token.GTR && k == -1) {
+		return nil
+	}
+	phi, ok := cmp.X.(*ssa.Phi)
+	if !ok || phi.Block() != l.Header {
+		return nil
+	}
+	initV, fromLatch, ok := phiInitValueAndLatch(phi, l)
+	if !ok {
+		return nil
+	}
+	dec, ok := fromLatch.(*ssa.BinOp)
+	if !ok || dec.X != ssa.Value(phi) {
+		return nil
+	}
+	d, isc := ConstInt(dec.Y)
+	if !isc || !(dec.Op == token.SUB && d == 1 || dec.Op == token.ADD && d == -1) {
+		return nil
+	}
+	il := &IndexLoop{Loop: l, If: iff, Phi: phi, Index: phi, StartVal: initV, Start: -1, Step: -1, Descending: true}
+	if top, ok := initV.(*ssa.BinOp); ok && top.Op == token.SUB {
+		if one, isc := ConstInt(top.Y); isc && one == 1 {
+			il.Bound = top.X
+		}
+	}
+	return il
 }
